@@ -286,7 +286,7 @@ def main():
     known_obl = {o for k in known for o in k.get('obligations', [])}
     known_keys = {k['key'] for k in known if k.get('key')}
 
-    lines, violations, undecided, limits = [], [], [], []
+    lines, violations, undecided, limits, aux_broken = [], [], [], [], []
     for code, msg in problems:
         (undecided if code == 2 else limits).append(msg)
     canaries = [g for g in agg.values() if g['kind'] == 'canary']
@@ -299,11 +299,13 @@ def main():
             continue
         if oid in known_obl:
             continue
-        if g['kind'] in PROPERTY_KINDS or oid in baseline:
+        if g['kind'] in PROPERTY_KINDS:
             violations.append((oid, g))
         else:
-            undecided.append('PROOF-BROKEN obligation=%s (%s) not discharged; auxiliary step, property undecided'
-                             % (oid, g['text'][:100]))
+            # an auxiliary step of the proof (loop invariant, variant): its failure means the PROOF no longer goes through --
+            # which a behaviour-preserving refactoring can cause as well as a defect.  Undecided, unless the bounded oracle
+            # finds a failing input on the real code (then the violation below carries that input).
+            aux_broken.append((oid, g))
     for oid in sorted(o for o in baseline - set(agg) if '/safe[' not in o):
         undecided.append('baseline obligation vanished (contract drift): %s' % oid)
 
@@ -312,6 +314,14 @@ def main():
         for f in native.get('findings', []):
             if f.get('key') not in known_keys:
                 native_new.append(f)
+
+    for oid, g in aux_broken:
+        if native_new:
+            violations.append((oid, g))          # confirmed on the real code: reported with the oracle's failing input
+        else:
+            undecided.append('PROOF-BROKEN obligation=%s (%s) %s; auxiliary proof step, no failing input found on the real '
+                             'code: property undecided' % (oid, g['text'][:90],
+                                                            'passed on the unchanged tree' if oid in baseline else 'not in the baseline'))
 
     # ---- known findings: print one line each (confirmed by failing obligation and/or bounded oracle)
     for k in known:
